@@ -23,6 +23,7 @@ def run(repo, res, tier):
     langrules.rule_lookahead_lang(repo, res, langrules.analyse(repo))
     # CR LF labels read through binary entry points keep their CR: the dash-continuation removal covers every line end
     langrules.rule_dash(repo, res, langrules.analyse(repo))
+    langrules.rule_dash_doc(repo, res)
     apirules.rule_f1(repo, res, "__init__")
     if "new" in repo.modules:
         apirules.rule_f1(repo, res, "new")
